@@ -253,7 +253,55 @@ def _w_fission_shortcut(m):
     return [("fission", "G[('body', 0), ('body', 1)]:GapType.Before n=1", lambda: S.fission(p, lp.body()[1].before()))]
 
 
+def _w_stage_callee(m):
+    import exo.stdlib.scheduling as S
+    p = m.foo
+    return [("stage_mem", "B[]:body:(0, 1) win=y[0:4]", lambda: S.stage_mem(p, p.body()[0], "y[0:4]", "stg"))]
+
+
+def _w_stage_alias(m):
+    import exo.stdlib.scheduling as S
+    p = m.foo
+    blk = p.body()[1:3]
+    return [("stage_mem", "B[]:body:(1, 3) win=x[0:4]", lambda: S.stage_mem(p, blk, "x[0:4]", "stg"))]
+
+
+def _w_sink_alloc(m):
+    import exo.stdlib.scheduling as S
+    p = m.foo
+    return [("sink_alloc", "N[('body', 0)]", lambda: S.sink_alloc(p, p.body()[0]))]
+
+
 WITNESSES = [
+    ("stage_mem_window_alias", """
+@proc
+def foo(x: R[4], y: R[4]):
+    w2 = x[2:3]
+    w2[0] = 5.0
+    y[0] = x[2]
+""", _w_stage_alias),
+    ("sink_alloc_into_if_else", """
+@proc
+def foo(bb: bool, y: R[4]):
+    a: R[10]
+    if bb:
+        a[1] = 0.0
+        y[0] = a[1]
+    else:
+        a[1] = 1.0
+        y[0] = a[1]
+""", _w_sink_alloc),
+    ("stage_mem_callee_writes_through_window", """
+@proc
+def setz(dst: [R][2]):
+    dst[0] = 7.0
+    dst[1] = 8.0
+
+@proc
+def foo(y: R[4], x: R[4]):
+    setz(y[0:2])
+    x[0] = y[0]
+""", _w_stage_callee),
     ("fission_idempotent_prefix_reduced_into", """
 @proc
 def foo(n: size, y: R[8]):
